@@ -413,6 +413,7 @@ def check_install(job):
         return ('install', name, [('C15:INTERNAL', 'install project does not configure: ' + r.out[-300:])], {'cases': 0})
     v = []
     n = 0
+    nsub = [0]
     if os.path.exists(os.path.join(bdir, 'build.ninja')):
         mf = rn.parse_file(os.path.join(bdir, 'build.ninja'))
         for e in rn.topo_order(mf, ['all']):
@@ -457,6 +458,28 @@ def check_install(job):
                 hits = [p for p in tree if p == d or p.startswith(d.rstrip('/') + '/')]
                 if not hits and not os.path.isdir(os.path.join(dest, d.lstrip('/'))):
                     v.append(('C15:install_plan:not-installed:%s' % sect, '%s -> %s is in intro-install_plan.json but was not installed (tags=%s)' % (os.path.relpath(srcp, root), d, tagsel)))
+                # "names every installed ... subdirectory with the destination meson install uses": the destination is where the
+                # CONTENTS of the source directory land - every file of it that the entry's exclude lists do not name is at
+                # <destination>/<path below the source directory>, and only those count as named by this entry
+                info = plan[sect][srcp]
+                exf, exd = set(info.get('exclude_files') or []), set(info.get('exclude_directories') or info.get('exclude_dirs') or [])
+                mine = set()
+                if os.path.isdir(srcp):
+                    for base, dirs, fns in os.walk(srcp):
+                        relb = os.path.relpath(base, srcp)
+                        relb = '' if relb == '.' else relb
+                        dirs[:] = [x for x in dirs if os.path.join(relb, x) not in exd]
+                        for fn in fns:
+                            rel = os.path.join(relb, fn)
+                            if rel in exf:
+                                continue
+                            want = os.path.normpath(os.path.join(d, rel))
+                            mine.add(want)
+                            nsub[0] += 1
+                            if want not in tree:
+                                v.append(('C15:install_plan:subdir-contents-elsewhere', '%s -> %s is in intro-install_plan.json, but its file %s is not at %s after meson install (tags=%s)'
+                                          % (os.path.relpath(srcp, root), d, rel, want, tagsel)))
+                    hits = [p for p in hits if p in mine or tree[p] != 'file']
                 covered.update(hits)
             else:
                 if d not in tree:
@@ -478,7 +501,7 @@ def check_install(job):
                 if dd not in tree and not os.path.isdir(os.path.join(dest, dd.lstrip('/'))):
                     v.append(('C15:installed:not-installed', '%s -> %s is in intro-installed.json but was not installed' % (os.path.relpath(srcp, root), dd)))
     shutil.rmtree(root, ignore_errors=True)
-    return ('install', name, v, {'cases': n})
+    return ('install', name, v, {'cases': n, 'subdir_files_located': nsub[0]})
 
 
 # ---- driver per configured project ----------------------------------------------------------------------------------
